@@ -90,6 +90,8 @@ pub struct ChanState {
     pub consecutive_pending: u32,
     /// once set, no further faults are injected (the "faults stop" point)
     pub quiet: bool,
+    /// the most recent write/flush call returned Pending and no write/flush call has been made since
+    pub write_blocked: bool,
 }
 
 #[derive(Clone)]
@@ -138,6 +140,10 @@ impl Chan {
 
     pub fn set_quiet(&self) {
         self.0.borrow_mut().quiet = true;
+    }
+
+    pub fn set_quiet_to(&self, q: bool) {
+        self.0.borrow_mut().quiet = q;
     }
 
     pub fn wake_all(&self) -> bool {
@@ -229,6 +235,7 @@ impl Chan {
     pub fn poll_write_from(&self, cx: &mut Context<'_>, src: &[&[u8]]) -> Poll<io::Result<usize>> {
         let mut s = self.0.borrow_mut();
         s.write_calls += 1;
+        s.write_blocked = false;
         let total: usize = src.iter().map(|b| b.len()).sum();
         if total == 0 {
             return Poll::Ready(Ok(0));
@@ -242,6 +249,7 @@ impl Chan {
             simcore::fault("write-pending");
             simcore::sig(0x21);
             cx.waker().wake_by_ref();
+            s.write_blocked = true;
             return Poll::Pending;
         }
         s.consecutive_pending = 0;
@@ -278,6 +286,7 @@ impl Chan {
             s.wr_wakers.push(cx.waker().clone());
             simcore::sig(0x25);
             simcore::log(|| "  chan.write: full -> park".to_string());
+            s.write_blocked = true;
             return Poll::Pending;
         }
         let mut k = total.min(room);
@@ -311,11 +320,13 @@ impl Chan {
 
     pub fn poll_flush_chan(&self, cx: &mut Context<'_>) -> Poll<io::Result<()>> {
         let mut s = self.0.borrow_mut();
+        s.write_blocked = false;
         let f = if s.quiet { Faults::none() } else { s.wf };
         if f.pending > 0 && s.consecutive_pending < 3 && simcore::flip("fl.pending", f.pending, 64) {
             s.consecutive_pending += 1;
             simcore::fault("flush-pending");
             cx.waker().wake_by_ref();
+            s.write_blocked = true;
             return Poll::Pending;
         }
         s.consecutive_pending = 0;
